@@ -673,7 +673,7 @@ func c07wrapperShape(p *core.Prog, f *ssa.Function, blocking bool, dir types.Cha
 	recv := ssa.Value(f.Params[0])
 	// collect returns with the sentinel names of their error operand, and the conditions they sit under
 	var rets []retInfo
-	for _, rc := range core.ReturnCases(f) {
+	for _, rc := range core.ExpandReturnCases(p, f) {
 		e := rc.Vals[len(rc.Vals)-1]
 		name := core.GlobalName(e)
 		if name == "" {
